@@ -115,7 +115,7 @@ Verdict(e) ==
                        ELSE IF f = "cc" /\ RecDiff(CommentFields, [OnlyComments(m) EXCEPT !.cc = <<>>], [OnlyComments(e.s1) EXCEPT !.cc = <<>>]) = ""
                             THEN "dev:F-C02f"
                        ELSE "comment lost or changed: " \o f
-      props == IF e.s1.kind = "error" THEN ""
+      props == IF e.s1.kind = "error" THEN "re-parse fails with " \o e.s1.class
                ELSE IF e.s1.allowprops # m.allowprops THEN "allow_properties"
                ELSE IF OnlyProps(Shown(m)) = OnlyProps(e.s1) THEN ""
                ELSE IF OnlyProps(BlankDriftingProps(Shown(m), Shown(m))) = OnlyProps(BlankDriftingProps(e.s1, Shown(m))) THEN "dev:F-C15a"
